@@ -672,4 +672,29 @@ theorem lastArg_mem {ch : Char} {toks : List Tok} {a : Str} (h : lastArg ch toks
           exact ⟨arg, by simp [hc], h⟩
         · simp [hc] at h
 
+/-! ### structured command lines -/
+
+/-- a structured option: its letter and, for an option that takes one, its argument -/
+structure OptW where
+  ch  : Char
+  arg : Option Str
+
+def OptW.words (o : OptW) : List Str :=
+  match o.arg with
+  | none => [['-', o.ch]]
+  | some a => [['-', o.ch], a]
+
+def OptW.tok (o : OptW) : Tok := .opt o.ch o.arg
+
+/-- the option exists in the option string `os`, takes an argument exactly when one is given, and is not '-' -/
+def OptW.wf (os : Str) (o : OptW) : Prop := optKind os o.ch = some o.arg.isSome ∧ o.ch ≠ '-'
+
+/-- the command line that writes every option as a word of its own (argument in the next word), then `--` -/
+def render (opts : List OptW) (operands : List Str) : List Str :=
+  opts.flatMap OptW.words ++ ['-', '-'] :: operands
+
+theorem getoptGo_skip (os : Str) (a : Str) (l : List Str) : getoptGo os true (a :: l) = getoptGo os false l := by
+  rw [getoptGo]
+
+
 end PdshVerif.Opt
